@@ -28,13 +28,13 @@ LOCK = "this.promiseLock"
 
 
 def run(ctx):
-    ctx.rule("C18.guard", "A3: the four maps only under promiseLock", floor=30)
+    ctx.rule("C18.guard", "A3: the four maps only under promiseLock", floor=15)
     ctx.step(check_guarded_fields, ctx, "C18.guard", CLS)
     ctx.step(onecs, ctx)
     ctx.step(pair, ctx)
     ctx.step(dtor, ctx)
     ctx.step(query, ctx)
-    ctx.step(common.raii_only, ctx, "C18.raii", ["DelayedObjects.hpp"], floor=10)
+    ctx.step(common.raii_only, ctx, "C18.raii", ["DelayedObjects.hpp"], floor=5)
 
 
 def public_methods(ctx):
@@ -43,7 +43,7 @@ def public_methods(ctx):
 
 def onecs(ctx):
     rid = "C18.onecs"
-    ctx.rule(rid, "every public operation is exactly one critical section of promiseLock (no second section through a callee)", floor=10)
+    ctx.rule(rid, "every public operation is exactly one critical section of promiseLock (no second section through a callee)", floor=5)
     fb, eng = ctx.fb, ctx.eng
     for f in public_methods(ctx):
         total = 0
@@ -103,7 +103,7 @@ def _map_of(f, p, at=None):
 def pair(ctx):
     rid = "C18.pair"
     ctx.rule(rid, "set_value only on a promise still in a pending map; then moved to the matching used map and removed "
-             "from the pending map before the lock is released; removal only after set_value", floor=12)
+             "from the pending map before the lock is released; removal only after set_value", floor=6)
     fb = ctx.fb
     seen = 0
     for f in fb.functions(rec=CLS):
@@ -190,7 +190,7 @@ def pair(ctx):
 
 def dtor(ctx):
     rid = "C18.dtor"
-    ctx.rule(rid, "the destructor satisfies every remaining pending promise of both pending maps under the lock", floor=2)
+    ctx.rule(rid, "the destructor satisfies every remaining pending promise of both pending maps under the lock", floor=1)
     eng = ctx.eng
     for f in ctx.fb.functions(rec=CLS):
         if f.kind != "dtor":
@@ -214,7 +214,7 @@ def dtor(ctx):
 def query(ctx):
     rid = "C18.query"
     ctx.rule(rid, "isCompleted reads the used map, isRecognized both maps of its key type; getFuture stores the promise "
-             "whose future it returns", floor=6)
+             "whose future it returns", floor=3)
     fb = ctx.fb
     for f in fb.functions(rec=CLS):
         finds = sorted({path(f, f.s(st["obj"]))[5:] for st in f.stmts.values() if st["k"] == "CXXMemberCallExpr" and
